@@ -42,6 +42,15 @@ mod tap;
 /// "not tracked"
 const NOF: u64 = u64::MAX;
 
+/// O_NONBLOCK of a descriptor (every socket handed to a coroutine must have it: may's io loops rely on EAGAIN)
+fn fd_nonblocking(fd: std::os::unix::io::RawFd) -> bool {
+    extern "C" {
+        fn fcntl(fd: i32, cmd: i32, ...) -> i32;
+    }
+    let fl = unsafe { fcntl(fd, 3) }; // F_GETFL
+    fl >= 0 && (fl & 0o4000) != 0 // O_NONBLOCK (linux)
+}
+
 fn envs(k: &str, d: &str) -> String {
     std::env::var(k).unwrap_or_else(|_| d.into())
 }
@@ -357,6 +366,9 @@ fn accept_jobs(ctx: &Ctx, tcp: bool, conns: usize, maxsize: u64, maxchunk: u64, 
                         Ok((s, peer)) => {
                             let who = tap::last_accepted(l).unwrap_or(0xffff);
                             tap::ret_ok(l, 0, who as usize);
+                            if may::coroutine::is_coroutine() && !fd_nonblocking(s.as_raw_fd()) {
+                                c.fail(format!("acceptor {i}: accept number {k} returned a socket in blocking mode to a coroutine (its first read would block the worker thread instead of the coroutine)"));
+                            }
                             accepted.lock().unwrap().push((who, peer.port() as u64));
                             drop(s);
                         }
@@ -388,6 +400,9 @@ fn accept_jobs(ctx: &Ctx, tcp: bool, conns: usize, maxsize: u64, maxchunk: u64, 
                         Ok((mut s, _)) => {
                             let who = tap::last_accepted(l).unwrap_or(0xffff);
                             tap::ret_ok(l, 0, who as usize);
+                            if may::coroutine::is_coroutine() && !fd_nonblocking(s.as_raw_fd()) {
+                                c.fail(format!("acceptor {i}: accept number {k} returned a socket in blocking mode to a coroutine (its first read would block the worker thread instead of the coroutine)"));
+                            }
                             let j = (who / 2) as usize;
                             if who == 0xffff || j >= dirs.len() {
                                 c.fail(format!("acceptor {i}: accept number {k} returned a connection nobody issued"));
